@@ -35,7 +35,7 @@ import itertools
 import random
 import time
 import z3
-from amaranth import Elaboratable, Module, Signal, Value
+from amaranth import Elaboratable, Module, Signal, Value, signed
 from amaranth.hdl import Fragment
 
 from ..harness import Built
@@ -75,8 +75,9 @@ ASSUMES = ["'context active' of a site inside a transaction / method body = the 
            "Enum raw values are enumerated (the harness forks on a symbolic selector), int/bool raw values and cycles stay symbolic (96-bit signed proxies, no "
            "arithmetic on them in the code under test except >> and &)",
            "EventConsumer: 'in cycle order' read as non-decreasing cycles (order among equal cycles not demanded)"]
-TRUSTED = ["Amaranth 0.5 elaboration, NIR netlist construction and RTLIL name map", "vf/nir2smt.py translator (counterexamples replayed on amaranth.sim)",
-           "vf/pysym.py proxies (cross-checked against concrete runs of the same functions in every configuration)", "dataclasses_json to_dict/from_dict on the concrete schema",
+TRUSTED = ["Amaranth 0.5 elaboration, NIR netlist construction and RTLIL name map", "vf/nir2smt.py translator (counterexamples replayed on amaranth.sim, random traces co-simulated)",
+           "vf/pysym.py proxies and the local FastEngine front-end of its decide() (cross-checked against concrete runs of the same functions in every configuration; "
+           "a solver query per configuration shows that the explored paths cover the whole input domain)", "dataclasses_json to_dict/from_dict on the concrete schema",
            "z3 5.1.0"]
 FUNCTIONS = ["transactron/evlog/emit.py:EventSource.emit", "transactron/evlog/emit.py:EventSource.top_emit", "transactron/utils/gen.py:VerilogDebugWrapper.elaborate",
              "transactron/utils/gen.py:VerilogDebugWrapper.collect_evlog", "transactron/evlog/schema.py:schema_from_records", "transactron/testing/evlog.py:capture_evlog",
@@ -353,9 +354,7 @@ class EvDesign(CtxDesign):
                 if kind == "x":
                     v = i + 1
                 else:
-                    shp = ENUMS[src[1]] if kind == "e" else (-w if kind == "s" else w)
-                    from amaranth import signed
-                    v = Signal(signed(w) if kind == "s" else shp, name=f"fs{k}_{j}")
+                    v = Signal(ENUMS[src[1]] if kind == "e" else signed(w) if kind == "s" else w, name=f"fs{k}_{j}")
                     m.d.top_comb += v.eq(i)
             vals[fname] = v
         self.site_vals[k] = vals
@@ -762,7 +761,15 @@ def eval_paths(paths, env, result_of):
     """concrete inputs -> result of the unique explored path whose path condition they satisfy (proxy validation)."""
     subs = [(z3.BitVec(n, W), z3.BitVecVal(v, W)) for n, v in env.items()]
     ev = lambda t: z3.simplify(z3.substitute(t, *subs))
-    hit = [p for p in paths if all(z3.is_true(ev(c)) for c in ([z3.And(*p.pc)] if p.pc else []))]
+    memo = {}
+
+    def holds(c):
+        k = c.get_id()
+        if k not in memo:
+            memo[k] = z3.is_true(ev(c))
+        return memo[k]
+
+    hit = [p for p in paths if all(holds(c) for c in p.pc)]
     if len(hit) != 1:
         raise Unsupported(f"{len(hit)} paths cover the concrete input {env} (expected exactly 1)")
 
@@ -822,12 +829,15 @@ def dom_of(names):
     return dom
 
 
-def coverage(ctx, label, dom, paths, limit=600):
-    if len(paths) > limit:
-        note(ctx, "coverage_query_skipped_large_path_set")
-        return
-    ctx.prove(f"{label}: the {len(paths)} explored path(s) cover the whole input domain", dom,
-              z3.Or(*[z3.And(*p.pc) if p.pc else z3.BoolVal(True) for p in paths]), None)
+def coverage(ctx, label, dom, paths):
+    """dom => OR of the path conditions.  Literals of a path condition that are literally domain constraints are dropped from the
+    disjuncts (equivalent under dom)."""
+    ids = {d.get_id() for d in dom}
+    disj = []
+    for p in paths:
+        rest = [c for c in p.pc if c.get_id() not in ids]
+        disj.append(z3.And(*rest) if rest else z3.BoolVal(True))
+    ctx.prove(f"{label}: the {len(paths)} explored path(s) cover the whole input domain", dom, z3.Or(*disj) if disj else z3.BoolVal(False), None)
 
 
 # ---------------------------------------------------------------------------------------------------------------------
@@ -1158,6 +1168,8 @@ class DecodeHarness:
                 if eng is not None:
                     eng._unsupported = None
                 return Failed(f"not executable on symbolic values: {e}")
+            except Exception as e:  # noqa: the code under test raised inside the documented domain
+                return Failed(f"raised {type(e).__name__}: {e}")
 
         raws = self.raw_inputs(mk, pick)
         fs = MemFS()
